@@ -33,7 +33,7 @@ def pool():
     return [vint(0), vint(1), vdec(1.0), vint(2), vdec(2.0), vdec(2.5), vint(big), vdec(float(big)),
             vint(big + 1), vint(2 ** 63), vdec(float(2 ** 63)), vint(2 ** 64), vint(-1), vdec(-1.0),
             vstr("a"), vstr("1"), vstr(""), V.TRUE, V.FALSE, V.NULL, vlist([vint(1)]),
-            vlist([vdec(1.0)]), V.ValuePattern("a"), V.ValueDate(DATES[0]),
+            vlist([vdec(1.0)]), V.ValuePattern("a"), V.ValueDate(DATES[0]), vint(3), vint(11), vstr("11"),
             vset([vint(1)]), vset([vdec(1.0)]), vmap([(vint(1), vint(2))]), vmap([(vdec(1.0), vdec(2.0))])]
 
 
@@ -189,14 +189,21 @@ def run_sets(ctx, cell):
     text = ("[s == t, TRUE, length(s), m == m2, TRUE, "
             "[x in s for x in probes], [m[x, 'missing'] for x in probes], list(s), "
             "[length(remove(s + [], x)) for x in list(s)], [x in t for x in probes], "
-            "[m2[x, 'missing'] for x in probes]]")
+            "[m2[x, 'missing'] for x in probes], "
+            "[length(<<s, t>>), s in <<t>>, <<s>> == <<t>>, put(<<<>>>, s, 1)[t, 'missing'], length(<<m, m2>>), "
+            "m in <<m2>>, put(<<<>>>, m, 1)[m2, 'missing'], [s] == [t], find([t], s)]]")
     env["probes"] = vlist(p)
     out = run_ckl(text, env)
     if out.kind != "ok":
         ctx.fail("%s:%s:%s" % (key, out.kind, out.hostname() or "runtime-error"),
                  lambda: {"elements": [str(e) for e in els], "exc": str(out.exc)})
         return out
-    st, strst, ln, mm, strmm, member, lookup, items, rem, member2, lookup2 = out.value.value
+    st, strst, ln, mm, strmm, member, lookup, items, rem, member2, lookup2, nested = out.value.value
+    # equal containers are interchangeable as elements / keys themselves
+    ctx.check(str(nested) == "[1, TRUE, TRUE, 1, 1, TRUE, 1, TRUE, 0]", key + ":equal-containers-not-interchangeable-when-nested",
+              lambda: {"elements": [str(e) for e in els], "got": str(nested)})
+    ctx.check(hash(env["s"]) == hash(env["t"]), key + ":equal-sets-hash-differently", detail)
+    ctx.check(hash(env["m"]) == hash(env["m2"]), key + ":equal-maps-hash-differently", detail)
     ctx.check(tv(st), key + ":set-equality-depends-on-insertion-order", detail)
     ctx.check(tv(strst), key + ":set-rendering-depends-on-insertion-order", detail)
     ctx.check(tv(mm), key + ":map-equality-depends-on-insertion-order", detail)
